@@ -678,6 +678,25 @@ func OSCreate(name string) (*os.File, error) {
 	return os.Create(name)
 }
 
+var openFailLeft int
+
+// FailOpens makes the next n file creations of the HTTP handlers fail with
+// EMFILE (the process has no descriptor left). Controller side.
+//
+//go:norace
+func FailOpens(n int) { openFailLeft = n }
+
+// OSOpenFile replaces os.OpenFile in cmd/pkappa2.
+//
+//go:norace
+func OSOpenFile(name string, flag int, perm os.FileMode) (*os.File, error) {
+	if openFailLeft > 0 && flag&os.O_CREATE != 0 {
+		openFailLeft--
+		return nil, &os.PathError{Op: "open", Path: name, Err: syscall.EMFILE}
+	}
+	return os.OpenFile(name, flag, perm)
+}
+
 // ---- write errors: file size limit -----------------------------------------------
 
 var fsizeLimit int64 // 0 = none
